@@ -89,12 +89,6 @@ def _update_with_group(context, new_grp_context, old_inter_context):
         changed = False
     else:
         changed = None
-    # output.changed is unlikely in the intersection,
-    # but it will work if so.
-    if changed is not None:
-        lena.context.update_recursively(
-            context, "output.changed", changed
-        )
 
     new_inter_context = lena.context.intersection(*new_grp_context)
     context_update = lena.context.difference(new_inter_context,
@@ -102,6 +96,13 @@ def _update_with_group(context, new_grp_context, old_inter_context):
     # hopefully there is no "group" in these context intersection.
     lena.context.update_recursively(context,
                                     copy.deepcopy(context_update))
+    # output.changed is unlikely in the intersection,
+    # but it will work if so (the combined flag is set last,
+    # so that a common False can not overwrite a True).
+    if changed is not None:
+        lena.context.update_recursively(
+            context, "output.changed", changed
+        )
     context["group"] = new_grp_context
 
 
